@@ -2,7 +2,7 @@
    (compileOptimized) and the matchers (matchers.go) REGENERATED from /repo on this run. *)
 From Coq Require Import List ZArith Lia Bool Arith.
 From RG.Base Require Import Outcome GoSlice.
-From RG.Regex Require Import Utf8 Regex FastPath GoOps Capture Matcher History.
+From RG.Regex Require Import Utf8 Regex FastPath GoOps Capture Matcher History Ordered.
 From RGW Require Import Gen_Textmatch Inst_Textmatch.
 Import ListNotations.
 Local Open Scope Z_scope.
@@ -126,6 +126,29 @@ Example c11_anchored_any_is_not_containment :
   search nf (Concat [BeginText; Star AnyChar; foo]) [120; 10; 102; 111; 111] /\
   search nf (Concat [foo; Star AnyChar; EndText]) [102; 111; 111; 10; 120].
 Proof. exact anchored_any_is_not_containment. Qed.
+
+(* two literals with a dot-star in between (`foo.*bar`, `defer .*\.Unlock\(\)`): what a search decides, on positions of the input --
+   SOME occurrence of the first literal, an occurrence of the second at or behind its end, no line break in between (for every
+   input and every pair of literals; with a dot that matches the newline the last condition goes away). A fast path that answers the
+   shape with substring searches has to meet this; the first occurrence of the first literal does not settle the answer. *)
+Theorem C11_dot_star_between_literals_is_same_line :
+  forall fold_rel l a b,
+  (search fold_rel (Concat [Literal false a; Star AnyCharNotNL; Literal false b]) l <->
+   exists i k, lit_at a l i /\ lit_at b l k /\ (i + length a <= k)%nat /\ (k <= length l)%nat /\ same_line l (i + length a) k) /\
+  (search fold_rel (Concat [Literal false a; Star AnyChar; Literal false b]) l <->
+   exists i k, lit_at a l i /\ lit_at b l k /\ (i + length a <= k)%nat /\ (k <= length l)%nat).
+Proof. intros fr l a b. split; [apply search_lit_anynl_lit|apply search_lit_any_lit]. Qed.
+Print Assumptions C11_dot_star_between_literals_is_same_line.
+
+(* "foo\nfoo bar" matches `foo.*bar` (the SECOND foo), "foo\nbar" does not, `(?s)foo.*bar` matches it *)
+Example c11_dot_star_between_literals :
+  let nf : rune -> rune -> bool := fun _ _ => false in
+  let foo := Literal false [102; 111; 111] in
+  let bar := Literal false [98; 97; 114] in
+  search nf (Concat [foo; Star AnyCharNotNL; bar]) [102; 111; 111; 10; 102; 111; 111; 32; 98; 97; 114] /\
+  ~ search nf (Concat [foo; Star AnyCharNotNL; bar]) [102; 111; 111; 10; 98; 97; 114] /\
+  search nf (Concat [foo; Star AnyChar; bar]) [102; 111; 111; 10; 98; 97; 114].
+Proof. exact dot_star_between_literals. Qed.
 
 (* non-vacuity: every path is selected for some tree, the hypotheses are satisfiable, and a matcher really runs *)
 Example c11_paths :
